@@ -8,6 +8,7 @@
    longer hands to them (DJB hash 0, bytes >= 0x80) are not field lookups: VDrift 61 / 62. *)
 From Coq Require Import ZArith List Bool.
 From DG Require Import CaseFormat GoSem Lookup Idl IdlParse Gen_caching.
+(* the domain predicate of C14_parse_refines_elab is re-stated here (model files do not import proofs) *)
 Import ListNotations.
 Local Open Scope Z_scope.
 
